@@ -210,6 +210,10 @@ def run(rep, tier="quick", srcdir=None, only=None):
             C07.rule_MP3(rep, prog, g)
         if want("C07-MP4"):
             C07.rule_MP4(rep, prog, g)
+    if want("C07-MP6") or want("C07-CP7"):
+        from . import C07
+        C07.rule_MP6(rep, prog, None)
+        C07.rule_CP7(rep, prog, None)
 
 
 MANIFEST = {
